@@ -553,14 +553,25 @@ func (svr *Server) getSession(svc *service, req *message.ConnectMessage, resp *m
 		}
 	}
 
-	// If CleanSession, or no existing session found, then create a new one
+	// If CleanSession, discard the state kept for this client id. The state of
+	// the clean session itself lasts as long as this connection and is not put
+	// into the session store: there a later CleanSession=0 connection with the
+	// same client id (the client reconnected before the server noticed that
+	// this connection is gone) would find and resume it, and the end of this
+	// connection would delete what that later connection keeps there.
+	if req.CleanSession() {
+		svr.sessMgr.Del(cid)
+		svc.sess = &sessions.Session{}
+	}
+
+	// If no existing session found, then create a new one
 	if svc.sess == nil {
 		if svc.sess, err = svr.sessMgr.New(cid); err != nil {
 			return err
 		}
+	}
 
-		resp.SetSessionPresent(false)
-
+	if !resp.SessionPresent() {
 		if err := svc.sess.Init(req); err != nil {
 			return err
 		}
